@@ -20,12 +20,14 @@ warnings.simplefilter('ignore')
 
 from harness import util
 from harness.gen import c20_extra as GX
+from harness.gen import c20_extra6 as GX6
 from harness.gen import cli as GC
 from harness.gen import datasets as G
 
 ID = 'C20'
 MODULE = 'EmsModel.Props.C20'
 DRIVER = 'C20'
+EXTRA_MODULES = ['EmsModel.Props.C20Hist']      # round 6: geometry_argument over a history of the scratch directory
 REQUIRED = [
     'Ems.C20.parseBounds_iff', 'Ems.C20.bounds_unambiguous', 'Ems.C20.not_bounds_never_box',
     'Ems.C20.bounds_denote_box', 'Ems.C20.geometry_argument_order', 'Ems.C20.guess_format_table',
@@ -34,6 +36,9 @@ REQUIRED = [
     'Ems.C20.guess_table_generated', 'Ems.C20.format_choices_generated', 'Ems.C20.missing_points_generated',
     'Ems.C20.clip_handler_generated', 'Ems.C20.extract_points_handler_generated',
     'Ems.C20.export_geometry_handler_generated', 'Ems.C20.generated_handlers_write_last',
+    # round 6 (Props/C20Hist.lean)
+    'Ems.C20.replay_is_last_event', 'Ems.C20.geometry_argument_history_free', 'Ems.C20.geometry_argument_other_paths',
+    'Ems.C20.file_version_is_current', 'Ems.C20.history_agrees_with_stateless',
 ]
 RULE = ('bounds texts: corpus of minimal strings, texts drawn from the grammar of bounds_re (signs, the four '
         'numeral forms, underscores, non-ASCII decimal digits, every kind of blank around the commas), 24 kinds of '
@@ -56,7 +61,15 @@ RULE = ('bounds texts: corpus of minimal strings, texts drawn from the grammar o
         'dialects pandas writes; point tables of hundreds / thousands (thorough: tens of thousands) of rows under '
         'every policy, the rows outside the model spread from the first to the last tenth of the file (recorded as '
         'row count + seed + missing rows, rebuilt from the dataset\'s ground truth), the row numbers along the point '
-        'dimension compared on their own. Non-trivial: a '
+        'dimension compared on their own; point tables whose rows are placed ON the geometry by the generator\'s exact '
+        'cell polygons (a cell vertex, the extreme vertices of the model, the middle of an edge of one cell / of two '
+        'cells / of an edge on the model\'s bounding box, a small power of two inside / outside of these) under every '
+        'policy; clip regions whose sides are cell-edge coordinates, the bounding box of the model, boxes that only touch '
+        'it; histories within one process: a scratch directory that lives on while a geometry file is rewritten with '
+        'another geometry / an unreadable document / removed / replaced by a directory / asked about under another '
+        'spelling of its path, every step judged against what the path holds at that moment and sent to the model '
+        'with the explicit event list (`fshist`); command runs that reuse the same input, region, table and output '
+        'paths with new content (region file rewritten, point table rewritten, dataset rewritten). Non-trivial: a '
         'text that is not the bare `1,2,3,4` shape (has a sign / fraction / underscore / blank / non-ASCII digit '
         'or is a near miss), a geometry-argument scenario that reaches the JSON or file branch, a command run; '
         'distinct = distinct (operation, text / scenario).')
@@ -277,7 +290,104 @@ def evaluate(ctx, case: dict, work: pathlib.Path | None = None):
         return f'double {util.rat_str(GC.numeral_value(t))}', util.rat_str(float(t))
     if k == 'cmd':
         return eval_cmd(ctx, case, work)
+    # >>> round 6: histories (several uses of the same paths in one process); these return LISTS of lines / outputs
+    if k == 'geomhist':
+        return eval_geomhist(ctx, case, work)
+    if k == 'cmdhist':
+        return eval_cmdhist(ctx, case, work)
+    # <<< round 6
     raise ValueError(f'unknown case kind {k}')
+
+
+# ---------------------------------------------------------------------------
+# >>> round 6: histories
+
+def hist_dir(work: pathlib.Path, case: dict) -> pathlib.Path:
+    """the scratch directory of one history: one fixed path for all its steps"""
+    d = work / ('hist-' + re.sub(r'[^A-Za-z0-9]', '_', str(case.get('dir', '0'))))
+    shutil.rmtree(d, ignore_errors=True)
+    return d
+
+
+def eval_geomhist(ctx, case: dict, work: pathlib.Path):
+    """A history of one scratch directory: every step changes some files (`set`: text = (re)written, None = a
+    directory, False = removed) and then evaluates geometry_argument on a path.  Every step is judged like a single
+    `geom` case - against what the directory holds at that moment - and, for the model with an explicit history
+    (`fshist`), the geometry returned is named by the version of the text it equals (generator's ground truth)."""
+    from shapely.geometry import shape
+    d = hist_dir(work, case)
+    d.mkdir(parents=True)
+    events, versions, current = [], {}, {}
+    lines, impls = [], []
+    try:
+        for i, step in enumerate(case['steps']):
+            desc = {'case': dict(case, steps=case['steps'][:i + 1]), 'step': i}
+            for name, content in step['set'].items():
+                p = d / name
+                if content is False:
+                    if p.is_dir():
+                        shutil.rmtree(p)
+                    elif p.exists():
+                        p.unlink()
+                    events.append(f'{codes(name)}=a')
+                    current.pop(name, None)
+                elif content is None:
+                    p.mkdir(parents=True, exist_ok=True)
+                    events.append(f'{codes(name)}=d')
+                    current.pop(name, None)
+                else:
+                    p.parent.mkdir(parents=True, exist_ok=True)
+                    p.write_text(content)
+                    ver = step.get('ver', {}).get(name)
+                    if ver is not None:
+                        try:
+                            versions[ver] = shape(json.loads(content))
+                        except Exception:  # noqa -- an unreadable document
+                            versions[ver] = None
+                        events.append(f'{codes(name)}=f{ver}:{int(versions[ver] is not None)}')
+                        current[name] = ver
+            line, out, g = geom_in_dir(ctx, {'s': step['s'], 'name': step['name']}, d, desc)
+            ctx.count('geomhist:step')
+            ctx.nontrivial(('geomhist', case.get('dir'), i, step['s']))
+            if line is None:
+                continue
+            lines.append(line)
+            impls.append(out)
+            # which of the texts written so far is the geometry that came back?
+            cur = current.get(step['path'])
+            named = out
+            if g is not None and not out.startswith('BOX') and out != 'JSON':
+                if cur is not None and versions.get(cur) is not None and g.wkb == versions[cur].wkb:
+                    named = f'FILE:{cur}'
+                else:
+                    old = [v for v, geom in sorted(versions.items(), reverse=True) if geom is not None and g.wkb == geom.wkb]
+                    named = f'FILE:{old[0]}' if old else out
+                    if old:
+                        ctx.oracle_fail('geometry-file-stale', desc,
+                                        f'geometry_argument({step["s"]!r}) returned the geometry of text no. {old[0]} written in this '
+                                        f'history; the path now holds ' + (f'text no. {cur}' if cur is not None else 'no readable text'))
+            jout = line.split()[2]
+            lines.append(' '.join(['fshist', codes(step['s']), jout, codes(step['path']), codes(step['name'])] + events))
+            impls.append(named)
+        return lines, impls
+    finally:
+        shutil.rmtree(d, ignore_errors=True)
+
+
+def eval_cmdhist(ctx, case: dict, work: pathlib.Path):
+    """A history of command runs in ONE scratch directory: the input, the geometry file, the point table and the output
+    have the same paths in every step, their content changes.  Every step is judged exactly like a single run."""
+    d = hist_dir(work, case)
+    lines, impls = [], []
+    for i, step in enumerate(case['steps']):
+        desc = {'case': dict(case, steps=case['steps'][:i + 1]), 'step': i}
+        line, impl = eval_cmd(ctx, step, work, fixed=d, desc=desc)
+        ctx.count(f"cmdhist:{step['cmd']}:{step.get('scenario', 'ok')}")
+        if line is not None:
+            lines.append(line)
+            impls.append(impl)
+    return lines, impls
+# <<< round 6
 
 
 # ---------------------------------------------------------------------------
@@ -286,10 +396,6 @@ def evaluate(ctx, case: dict, work: pathlib.Path | None = None):
 def eval_geom(ctx, case: dict, work: pathlib.Path):
     """case: s (argument text, relative names resolve inside the scratch dir), files {name: text | None=dir},
     name (final component of the path the text denotes)"""
-    from shapely.geometry import shape
-    u = cli_utils()
-    s = case['s']
-    desc = {'case': case}
     d = pathlib.Path(tempfile.mkdtemp(prefix='geom', dir=work))
     try:
         for name, content in case.get('files', {}).items():
@@ -299,6 +405,18 @@ def eval_geom(ctx, case: dict, work: pathlib.Path):
                 p.mkdir()
             else:
                 p.write_text(content)
+        return geom_in_dir(ctx, case, d, {'case': case})[:2]
+    finally:
+        shutil.rmtree(d, ignore_errors=True)
+
+
+def geom_in_dir(ctx, case: dict, d: pathlib.Path, desc: dict):
+    """geometry_argument(case['s']) with `d` as the working directory, judged against what the directory holds now;
+    returns (model line, canonical output, geometry returned or None)"""
+    from shapely.geometry import shape
+    u = cli_utils()
+    s = case['s']
+    if True:
         # parameters of the model, computed by calling the external libraries directly
         try:
             obj = json.loads(s)
@@ -358,13 +476,19 @@ def eval_geom(ctx, case: dict, work: pathlib.Path):
                     and not case.get('name', '').startswith('.') and out != 'FILE' and not out.startswith('BOX'):
                 ctx.oracle_fail('geojson-file-wrong-geometry', desc,
                                 f'geometry_argument({s!r}) = {out}, the file holds {fgeom.wkt}')
+            # ---- round 6: what the path holds NOW decides; a file that cannot be read, or is not there, is a failure
+            json_name = case.get('name', '').endswith(('.json', '.geojson')) and not case.get('name', '').startswith('.')
+            if jout == 'nojson' and exists and not loads and json_name and g is not None:
+                ctx.oracle_fail('unreadable-geometry-file-accepted', desc,
+                                f'geometry_argument({s!r}) = {out}, but the file does not hold a GeoJSON geometry')
+            if jout == 'nojson' and exists is False and g is not None:
+                ctx.oracle_fail('missing-geometry-file-accepted', desc,
+                                f'geometry_argument({s!r}) = {out}, but there is no such file')
         if exists is None:
             # a text pathlib / the OS cannot even ask about (NUL byte …): outside the model
-            return None, out
+            return None, out, g
         line = f"geom {codes(s)} {jout} {int(bool(exists))} {codes(case.get('name', ''))} {int(loads)}"
-        return line, out
-    finally:
-        shutil.rmtree(d, ignore_errors=True)
+        return line, out, g
 
 
 # ---------------------------------------------------------------------------
@@ -568,13 +692,20 @@ def fmt_number(rng, v: float) -> str:
     return ('-' if neg else '') + t
 
 
-def eval_cmd(ctx, case: dict, work: pathlib.Path):
-    """One run of `emsarray <command>`; compares with the library call and with the step model."""
+def eval_cmd(ctx, case: dict, work: pathlib.Path, fixed: pathlib.Path | None = None, desc: dict | None = None):
+    """One run of `emsarray <command>`; compares with the library call and with the step model.
+    `fixed` (round 6): the scratch directory of a history - the same paths as in the step before, new content."""
     import pandas as pd
     import emsarray
     from shapely.geometry import box, shape
-    desc = {'case': case}
-    d = pathlib.Path(tempfile.mkdtemp(prefix='cmd', dir=work))
+    desc = desc or {'case': case}
+    if fixed is None:
+        d = pathlib.Path(tempfile.mkdtemp(prefix='cmd', dir=work))
+    else:
+        import gc
+        gc.collect()        # nothing of the step before keeps a file of this directory open
+        d = fixed
+        d.mkdir(parents=True)
     cmd = case['cmd']
     scenario = case.get('scenario', 'ok')
     try:
@@ -621,10 +752,11 @@ def eval_cmd(ctx, case: dict, work: pathlib.Path):
                 geom_arg = json.dumps(box(*vals).__geo_interface__)
             else:
                 gp = d / case.get('geom_file', 'clip.geojson')
-                gp.write_text(json.dumps(box(*vals).__geo_interface__))
+                # (round 6: `geom_file_text` = a file that does not hold this geometry, e.g. an unreadable document)
+                gp.write_text(case['geom_file_text'] if 'geom_file_text' in case else json.dumps(box(*vals).__geo_interface__))
                 geom_arg = str(gp)
             if scenario == 'bad-geometry':
-                geom_arg = case['bad_geometry']
+                geom_arg = case.get('bad_geometry', geom_arg)
             argv += ['--', str(inp), geom_arg, str(outp)]
             if case.get('work_dir') == 'same':
                 # scratch files kept next to the result: the directory the output goes to is also the work directory
@@ -1221,6 +1353,109 @@ def long_table_cases(ctx) -> list:
 
 
 # ---------------------------------------------------------------------------
+# >>> round 6 (harness/gen/c20_extra6.py): points placed ON the geometry, clip boxes whose sides ARE cell edges,
+# histories of the same paths within one process
+
+ON_MODEL_CLASSES = ['vertex', 'vertex-extreme', 'edge-rim', 'edge-shared', 'edge-on-extent', 'inside', 'hair-inside']
+
+
+def whole_model_box(b, grow=1):
+    xs = [float(x) for p in b.polys if p for x, _ in p]
+    ys = [float(y) for p in b.polys if p for _, y in p]
+    return [min(xs) - grow, min(ys) - grow, max(xs) + grow, max(ys) + grow]
+
+
+def round6_cases(ctx) -> list:
+    import random
+    rng = random.Random(f'C20:{ctx.seed}:{int(ctx.searching)}:c20-extra6')      # a stream of its own
+    cases = []
+    plain_text = lambda vals: ','.join(GX.exact_decimal(v) for v in vals)        # noqa: E731
+    for rnd in range(ctx.budget(2, 6)):
+        for conv in G.CONVS:
+            # ---- extract-points: rows on vertices / edges / the rim of the model, under every policy ------------
+            rec = dataset_recipe(rng, conv, ctx.tier, for_clip=False)
+            b = G.build(rec['ds'])
+            cols = rng.choice([['lon', 'lat'], ['lon', 'lat'], ['x', 'y']])
+            plans = [(rng.choice([None, 'error']), ON_MODEL_CLASSES, rng.randint(2, 4), 0),
+                     (rng.choice([None, 'error']), ['vertex-extreme', 'edge-on-extent', 'edge-rim'], rng.randint(1, 3), 0),
+                     (rng.choice(['drop', 'fill']), GX6.POINT_CLASSES, rng.randint(4, 8), rng.choice([0, 1]))]
+            for policy, classes, n, n_far in plans:
+                table, stats = GX6.placed_points_table(rng, b.polys, cols, n, n_far, classes)
+                if not table[cols[0]]:
+                    continue
+                c = {'k': 'cmd', 'cmd': 'extract-points', 'recipe': rec, 'table': table, 'columns': cols,
+                     'policy': policy, 'dim': rng.choice([None, None, 'station'])}
+                if policy in (None, 'error'):
+                    # whether a point ON an edge belongs to a cell is the library's answer (C04); the command must give the same
+                    c.update(scenario='points-miss', step='extract-dataframe', failure='command')
+                cases.append(c)
+                for cls, k in stats.items():
+                    ctx.count(f'cmd:extract-points:placed:{cls}', k)
+            # ---- clip: a region whose sides are cell edges / the bounding box of the model / only touches the model ----
+            rec = dataset_recipe(rng, conv, ctx.tier, for_clip=True)
+            b = G.build(rec['ds'])
+            for want in (['extent', rng.choice(['edges', 'touch'])] if rnd == 0 else [None]):
+                vals, how = GX6.on_edge_box(rng, b.polys, want)
+                if vals is None:
+                    continue
+                cases.append({'k': 'cmd', 'cmd': 'clip', 'recipe': rec, 'bounds': vals, 'bounds_text': plain_text(vals),
+                              'geom_how': rng.choice(['bounds', 'json', 'file']), 'geom_file': 'clip.geojson', 'work_dir': False})
+                ctx.count(f'cmd:clip:on-edge:{how}')
+    # ---- histories of a geometry file --------------------------------------------------------------------
+    for i in range(ctx.budget(20, 120)):
+        cases.append({'k': 'geomhist', 'dir': f'g{i}', 'steps': GX6.geometry_file_history(rng)})
+        ctx.count('geomhist')
+    # ---- histories of command runs on the same paths -------------------------------------------------------
+    for i in range(ctx.budget(1, 4)):
+        # (a) one dataset, the region file rewritten between the runs: one cell / everything / unreadable / another cell
+        conv = rng.choice(G.CONVS)
+        rec = dataset_recipe(rng, conv, 'quick', for_clip=True)
+        b = G.build(rec['ds'])
+        name = rng.choice(['region.geojson', 'region.json'])
+        base = {'k': 'cmd', 'cmd': 'clip', 'recipe': rec, 'geom_how': 'file', 'geom_file': name, 'work_dir': False}
+        boxes = [clip_geometry_for(b, rng), whole_model_box(b), None, clip_geometry_for(b, rng), whole_model_box(b, 2)]
+        if rng.random() < 0.5:
+            boxes[0], boxes[1] = boxes[1], boxes[0]
+        steps = []
+        for vals in boxes:
+            if vals is None:
+                steps.append(dict(base, bounds=boxes[0], bounds_text=plain_text(boxes[0]), scenario='bad-geometry',
+                                  geom_file_text=rng.choice(GX6.BROKEN_DOCUMENTS), step='parse-arguments', failure='usage'))
+            else:
+                steps.append(dict(base, bounds=vals, bounds_text=plain_text(vals)))
+        cases.append({'k': 'cmdhist', 'dir': f'a{i}', 'steps': steps})
+        # (b) one dataset, the point table rewritten between the runs
+        conv = rng.choice(G.CONVS)
+        rec = dataset_recipe(rng, conv, 'quick', for_clip=False)
+        b = G.build(rec['ds'])
+        steps = []
+        for policy, n_hit, n_miss in [(None, 3, 0), ('drop', 2, 2), (None, 2, 1), ('fill', 1, 1), ('error', 4, 0)]:
+            c = {'k': 'cmd', 'cmd': 'extract-points', 'recipe': rec, 'columns': ['lon', 'lat'], 'policy': policy,
+                 'table': points_table(rng, b, n_hit, n_miss, ['lon', 'lat'])}
+            if n_miss and policy in (None, 'error'):
+                c.update(scenario='points-miss', step='extract-dataframe', failure='command')
+            steps.append(c)
+        cases.append({'k': 'cmdhist', 'dir': f'b{i}', 'steps': steps})
+        # (c) the dataset rewritten between the runs, everything else the same (same region file, same output name)
+        steps = []
+        convs = rng.sample(G.CONVS, 2)
+        for conv in convs:
+            rec = dataset_recipe(rng, conv, 'quick', for_clip=True)
+            b = G.build(rec['ds'])
+            vals = whole_model_box(b, rng.choice([1, 2]))
+            steps.append({'k': 'cmd', 'cmd': 'clip', 'recipe': rec, 'geom_how': 'file', 'geom_file': 'region.geojson',
+                          'work_dir': False, 'bounds': vals, 'bounds_text': plain_text(vals)})
+            steps.append({'k': 'cmd', 'cmd': 'export-geometry', 'recipe': rec, 'out': 'cells.geojson', 'expect_format': 'geojson'})
+        cases.append({'k': 'cmdhist', 'dir': f'c{i}', 'steps': steps})
+    for c in cases:
+        if c['k'] == 'cmdhist':
+            ctx.count('cmdhist')
+            ctx.nontrivial(('cmdhist', c['dir'], len(c['steps'])))
+    return cases
+# <<< round 6
+
+
+# ---------------------------------------------------------------------------
 
 def run(ctx) -> None:
     import dask
@@ -1229,6 +1464,7 @@ def run(ctx) -> None:
     items = []
     try:
         cases = table_cases(ctx) + text_cases(ctx) + geom_cases(ctx) + command_cases(ctx) + extra_command_cases(ctx) + long_table_cases(ctx)
+        cases += round6_cases(ctx)      # round 6, from a random stream of its own
         real_ctx, ctx = ctx, Flagging(ctx)
         for case in cases:
             before = ctx.flags
@@ -1247,6 +1483,9 @@ def run(ctx) -> None:
                 ctx.nontrivial(('cmd', json.dumps(case, sort_keys=True, default=str)[:2000]))
             if line is None:
                 ctx.evaluated()
+                continue
+            if isinstance(line, list):      # round 6: a history gives one line per step
+                items.extend((ln, im, {'case': case, 'line': j}) for j, (ln, im) in enumerate(zip(line, impl)))
                 continue
             items.append((line, impl, {'case': case}))
         if ctx.thorough:
@@ -1373,7 +1612,9 @@ def run_one(ctx, inp: dict) -> dict:
     finally:
         shutil.rmtree(work, ignore_errors=True)
     out = {'op': line, 'impl': impl}
-    if ctx.driver and line is not None:
+    if ctx.driver and isinstance(line, list):       # round 6: a history
+        out['model'] = ctx.model(line) if line else []
+    elif ctx.driver and line is not None:
         out['model'] = ctx.model([line])[0]
     out['oracle'] = probe.said or 'no violation'
     return out
